@@ -139,6 +139,14 @@ def apply(prog):
             continue
         # re-attach the closures of the inlined helpers to the caller: fresh ordinals after the caller's own
         parent = b.name
+        # promoted constants (`&[0]`, `&None`) of an inlined helper are described as "a promoted constant of <function>": they
+        # are the caller's now
+        for blk in nb.blocks.values():
+            for st in list(blk.stmts) + [blk.term]:
+                ex = getattr(st, 'extra', None)
+                if ex and any('promoted[' in e for e in ex):
+                    st.extra = [re.sub(r'Unevaluated\((%s)(?=,)' % '|'.join(re.escape(h) for h in set(done)), 'Unevaluated(' + parent, e)
+                                if 'promoted[' in e else e for e in ex]
         own = [int(m.group(1)) for c in prog.bodies for m in [re.match(re.escape(parent) + r'::\{closure#(\d+)\}$', c.name or '')] if m]
         nxt = max(own + [-1]) + 1
         for h in dict.fromkeys(done):
